@@ -304,4 +304,128 @@ theorem ni_endBlock (k : BlockKind) : NI (α := α) (endBlock (α := α) k) (end
   unfold endBlock; nit
 macro_rules | `(tactic| ni_leaf) => `(tactic| with_reducible exact ni_endBlock _)
 
+/-! ### the two pieces that read and write the map -/
+
+theorem NI.get_bind2 {γ : Type} {g g' : Col α → A α γ}
+    (hg : ∀ s0 s0' : Col α, Rl s0 s0' → NI (g s0) (g' s0')) :
+    NI ((get : A α (Col α)) >>= g) ((get : A α (Col α)) >>= g') :=
+  ⟨fun s s' h => (hg s s' h).run s s' h⟩
+
+theorem Rl.fields {s s' : Col α} (h : Rl s s') : s'.oldStyle = s.oldStyle ∧ LocsEq s.metaLocs s'.metaLocs := by
+  obtain ⟨m', rfl, hl⟩ := h
+  exact ⟨rfl, hl⟩
+
+macro_rules | `(tactic| ni_leaf) => `(tactic| exact NI.modifyLocs (fun m => List.filter _ m) (fun _ _ h => detl_filter h _))
+macro_rules | `(tactic| ni_leaf) => `(tactic| exact NI.modifyLocs (fun m => List.filter _ m ++ [_]) (fun _ _ h => detl_replace h _ _))
+
+syntax "nit2" : tactic
+macro_rules | `(tactic| nit2) => `(tactic| repeat' (first
+  | intro _
+  | ni_leaf
+  | dsimp only
+  | (with_reducible apply NI.get_bind2
+     intro s0 s0' h0
+     obtain ⟨e0, hl0⟩ := Rl.fields h0
+     have hf0 := fun k => detl_find_perm hl0 k
+     try simp only [e0, hf0])
+  | with_reducible apply NI.bind
+  | split))
+
+theorem ni_timeOverrideCheck (k : StdKey) : NI (α := α) (timeOverrideCheck (α := α) k) (timeOverrideCheck k) := by
+  unfold timeOverrideCheck; nit2
+macro_rules | `(tactic| ni_leaf) => `(tactic| with_reducible exact ni_timeOverrideCheck _)
+
+set_option maxHeartbeats 4000000 in
+theorem ni_metadataA (env : Env) (k v : Text) : NI (α := α) (metadataA (α := α) env k v) (metadataA env k v) := by
+  unfold metadataA; nit2
+
+theorem ni_processEvent (env : Env) (input : Str) (ev : Ev α) :
+    NI (α := α) (processEvent env input ev) (processEvent env input ev) := by
+  cases ev <;> unfold processEvent <;> dsimp only <;> first | exact ni_metadataA _ _ _ | nit
+
+/-! ### the fold with the map re-enumerated in an arbitrary order after every event -/
+
+/-- `parse_events` where, after every event, the entries of `locations.metadata` are put in the order
+    `shuffle i` chooses (a `HashMap` may enumerate its entries in any order, and the order may change
+    with every insertion) -/
+def parseEventsLoopO (shuffle : Nat → List (StdKey × Span) → List (StdKey × Span)) (env : Env) (input : Str) :
+    Nat → List (Ev α) → Col α → AnalysisResult α
+  | _, [], s => parseEventsLoop env input [] s
+  | _, .error d :: rest, s => parseEventsLoop env input (.error d :: rest) s
+  | i, ev :: rest, s =>
+    parseEventsLoopO shuffle env input (i + 1) rest
+      (setLocs (shuffle i (processEvent env input ev s).2.metaLocs) (processEvent env input ev s).2)
+
+def parseEventsO (shuffle : Nat → List (StdKey × Span) → List (StdKey × Span)) (env : Env) (input : Str)
+    (evs : List (Ev α)) : AnalysisResult α :=
+  parseEventsLoopO shuffle env input 0 evs {}
+
+/-- `CooklangParser::parse` over the re-enumerating fold -/
+def parseRecipeO (shuffle : Nat → List (StdKey × Span) → List (StdKey × Span)) (env : Env) (input : Str) :
+    AnalysisResult α :=
+  let pe := pullEvents (α := α) env.cs env.ext input
+  let r := parseEventsO shuffle env input pe.1.toList
+  { r with panic := match pe.2 with
+                    | some p => some p
+                    | none => r.panic }
+
+/-- same diagnostics, same panic flag, outputs equal up to the order of the map entries -/
+def ResRel (r r' : AnalysisResult α) : Prop :=
+  r.diags = r'.diags ∧ r.panic = r'.panic ∧
+  match r.output, r'.output with
+  | some c, some c' => Rl c c'
+  | none, none => True
+  | _, _ => False
+
+theorem detl_loopO_cons (shuffle : Nat → List (StdKey × Span) → List (StdKey × Span)) (env : Env) (input : Str)
+    (i : Nat) (ev : Ev α) (rest : List (Ev α)) (s : Col α) (h : ¬ ∃ d, ev = .error d) :
+    parseEventsLoopO shuffle env input i (ev :: rest) s =
+      parseEventsLoopO shuffle env input (i + 1) rest
+        (setLocs (shuffle i (processEvent env input ev s).2.metaLocs) (processEvent env input ev s).2) := by
+  cases ev <;> first | rfl | exact absurd ⟨_, rfl⟩ h
+
+theorem detl_final (env : Env) (input : Str) (s s' : Col α) (h : Rl s s') :
+    ResRel (parseEventsLoop env input [] s) (parseEventsLoop env input [] s') := by
+  obtain ⟨m', rfl, hl⟩ := h
+  unfold parseEventsLoop
+  by_cases h1 : (!s.cur.isEmpty) = true <;> by_cases h2 : (!s.oldStyleUsed.isEmpty) = true <;>
+    simp only [setLocs, h1, h2, if_true, if_false, Bool.false_eq_true] <;>
+    exact ⟨rfl, rfl, m', rfl, hl⟩
+
+theorem detl_error (env : Env) (input : Str) (d : Diag) (rest : List (Ev α)) (s s' : Col α) (h : Rl s s') :
+    ResRel (parseEventsLoop env input (.error d :: rest) s) (parseEventsLoop env input (.error d :: rest) s') := by
+  obtain ⟨m', rfl, hl⟩ := h
+  simp only [parseEventsLoop, setLocs]
+  exact ⟨rfl, rfl, trivial⟩
+
+theorem detl_shuffle {s s' : Col α} (h : Rl s s') (m : List (StdKey × Span)) (hm : m.Perm s'.metaLocs) :
+    Rl s (setLocs m s') := by
+  obtain ⟨m', rfl, hl⟩ := h
+  exact ⟨m, rfl, hl.1.trans hm.symm, hl.2⟩
+
+theorem detl_loop (shuffle : Nat → List (StdKey × Span) → List (StdKey × Span))
+    (hsh : ∀ i m, (shuffle i m).Perm m) (env : Env) (input : Str) :
+    ∀ (evs : List (Ev α)) (i : Nat) (s s' : Col α), Rl s s' →
+      ResRel (parseEventsLoop env input evs s) (parseEventsLoopO shuffle env input i evs s') := by
+  intro evs
+  induction evs with
+  | nil => intro i s s' h; exact detl_final env input s s' h
+  | cons ev rest ih =>
+    intro i s s' h
+    by_cases he : ∃ d, ev = .error d
+    · obtain ⟨d, rfl⟩ := he
+      exact detl_error env input d rest s s' h
+    · rw [parseEventsLoop_cons_nonerror env input ev rest s he, detl_loopO_cons shuffle env input i ev rest s' he]
+      apply ih
+      exact detl_shuffle ((ni_processEvent env input ev).run s s' h).2 _ (hsh _ _)
+
+theorem detl_parseEvents (shuffle : Nat → List (StdKey × Span) → List (StdKey × Span))
+    (hsh : ∀ i m, (shuffle i m).Perm m) (env : Env) (input : Str) (evs : List (Ev α)) :
+    ResRel (parseEvents env input evs) (parseEventsO shuffle env input evs) :=
+  detl_loop shuffle hsh env input evs 0 {} {} (Rl.refl _ (by simp))
+
+theorem detl_forget {c c' : Col α} (h : Rl c c') : setLocs [] c = setLocs [] c' := by
+  obtain ⟨m', rfl, _⟩ := h
+  rfl
+
 end Cook
